@@ -1036,7 +1036,10 @@ bucket_byValue(Bucket *self, PyObject *omin)
 
     COPY_VALUE_FROM_ARG(min, omin, copied);
     UNLESS(copied)
+    {
+        PER_UNUSE(self);
         return NULL;
+    }
 
     for (i=0, l=0; i < self->len; i++)
         if (TEST_VALUE(self->values[i], min) >= 0)
